@@ -238,7 +238,7 @@ pub fn property() -> Property {
     Property {
         id: "C04",
         level: "exploration",
-        rule: "multi-replica histories (2..3/4 replicas, 4..26/44 steps) of inserts (single and multi-element) and range deletions of uniquely tagged elements in a root text (unique code points of every UTF-8 width), a root array (unique numbers) and a root XML child list (unique tag names), with deliveries in any order, duplicates, merges and syncs.  After EVERY step on the touched replica: no element twice; visible => its insertion was received and no deletion of it was received; one global before(x,y) relation fixed at first co-visibility must hold in every later state of every replica (covers 'between its neighbours' and multi-element order); at causally closed gap-free points: received insertion and no received deletion => visible.  Non-trivial = some update was made concurrently with an update of another author; distinct = distinct generated history".into(),
+        rule: "multi-replica histories (2..3/4 replicas, 4..26/44 steps) of inserts (single and multi-element) and range deletions of uniquely tagged elements in a root text (unique code points of every UTF-8 width), a root array (unique numbers) and a root XML child list (unique tag names), with deliveries in any order, duplicates, merges and syncs.  After EVERY step on the touched replica: no element twice; visible => its insertion was received and no deletion of it was received; one global before(x,y) relation fixed at first co-visibility must hold in every later state of every replica (covers 'between its neighbours' and multi-element order); at causally closed gap-free points: received insertion and no received deletion => visible; after every local transaction the author's whole view equals its view before the transaction with the operations applied at the requested indices (sequential model, applied to states reached through remote integration: 'placed where inserted').  Non-trivial = some update was made concurrently with an update of another author; distinct = distinct generated history".into(),
         assumptions: vec![
             "which update inserted/deleted an element is read from the author's own visible sequence before and after its transaction".into(),
             "undo/redo is excluded here (a redone element is a new insertion by the statement itself)".into(),
